@@ -10,7 +10,7 @@ import itertools
 import numpy as np
 
 from gens import atoms_of, base_cells, make_supercell, random_dataset
-from tensors import apply_op, full_basis_tensors
+from tensors import apply_op, full_basis_tensors, same_span
 
 UNITS = []
 PROPS = ["props/C02.v"]
@@ -99,7 +99,7 @@ def check(ctx):
                     F1 = np.asarray(b.compression_matrix @ b.basis_set)
                     b2 = o2.basis_set[order]
                     F2 = np.asarray(b2.compression_matrix @ b2.basis_set)
-                    if F1.shape != F2.shape or np.abs(F1 @ F1.T - F2 @ F2.T).max() > 1e-8:
+                    if not same_span(F1, F2)[0]:
                         ctx.fail("oracle", f"C02/oracle/op-order/order{order}", f"{sc['name']} order {order}: the span depends on the order in which the operations are listed",
                                  replay={"cell": sc["name"], "order": order, "op_order": list(map(int, order_))}, has_input=True)
             # fits
